@@ -378,7 +378,7 @@ Qed.
    the connection *)
 Definition local (o : ms_obs) : Prop :=
   match o with
-  | MsOStart _ _ _ _ _ | MsOTxLink _ _ _ | MsOAssoc _ _ _ | MsOClosed _ _ => False
+  | MsOStart _ _ _ _ _ | MsOTxLink _ _ _ | MsOAssoc _ _ _ | MsOClosed _ _ | MsOSleep _ _ => False
   | _ => True
   end.
 
